@@ -4,7 +4,10 @@
 // PartiesFromPeers / CreatePartyID, resharing's sortParties and unmarshallStartParams /
 // validateStartParams; unexported ones through the add-only hooks in harness/hooks/C08).
 //
-// Scenario cases run the REAL tss processes in-process (proto.go): start from the repository's
+// Release cases run it against result channels of capacity 0 / 1 / 2 / 8 with a parked and with a late
+// reader (the value must reach whoever reads the channel, whenever they read).
+//
+// Scenario cases run the REAL tss processes in-process (proto.go, session.go): start from the repository's
 // fixture key shares or from a real key generation, optionally refresh (resharing with join / leave /
 // threshold change) and let every threshold+1 subset of the committee sign.  After every stage the
 // scalar shares are read back from the key-share files written by the repository's own storers and
@@ -25,10 +28,12 @@ import (
 	"path/filepath"
 	"strings"
 	"sync"
+	"time"
 
 	ecommon "github.com/ChainSafe/sygma-relayer/tss/ecdsa/common"
 	eresharing "github.com/ChainSafe/sygma-relayer/tss/ecdsa/resharing"
 	esigning "github.com/ChainSafe/sygma-relayer/tss/ecdsa/signing"
+	fsigning "github.com/ChainSafe/sygma-relayer/tss/frost/signing"
 	tsscommon "github.com/binance-chain/tss-lib/common"
 	"github.com/btcsuite/btcd/btcec/v2"
 	"github.com/btcsuite/btcd/btcec/v2/schnorr"
@@ -44,6 +49,14 @@ import (
 type Reshare struct {
 	Members []int `json:"members"` // indexes into the peer universe (0..3 = the repo's fixture peers)
 	T       int   `json:"t"`
+}
+
+// Mode: how one signing session hands its result over / whether its first attempt fails (session.go)
+type Mode struct {
+	Chan   string `json:"chan,omitempty"`
+	Reader string `json:"reader,omitempty"`
+	Retry  string `json:"retry,omitempty"`
+	Inputs int    `json:"inputs,omitempty"`
 }
 
 type Case struct {
@@ -63,6 +76,17 @@ type Case struct {
 	Reshares []Reshare `json:"reshares,omitempty"`
 	SignAt   []int     `json:"sign_at,omitempty"` // stages (0 = start) after which every t+1 subset signs
 	Seed     uint64    `json:"seed,omitempty"`
+	// how the signing sessions of the scenario hand their result over (session.go)
+	Chan       string `json:"chan,omitempty"`        // "" | unbuf | cap1 | btc
+	Reader     string `json:"reader,omitempty"`      // "" | late | evm
+	Retry      string `json:"retry,omitempty"`       // "" | commerr | subset
+	Inputs     int    `json:"inputs,omitempty"`      // chan = btc: signing processes per relayer
+	MaxSubsets int    `json:"max_subsets,omitempty"` // 0 = every threshold+1 subset signs
+	// non-empty: the k-th signing subset of a stage uses Modes[k mod len] instead of the four fields above
+	Modes []Mode `json:"modes,omitempty"`
+	// release: capacity of the result channel and whether its reader is late
+	Cap  int  `json:"cap,omitempty"`
+	Late bool `json:"late,omitempty"`
 }
 
 type PartyObs struct {
@@ -93,12 +117,14 @@ type Stage struct {
 	Released  []bool `json:"released,omitempty"`
 	Valid     []bool `json:"valid,omitempty"`
 	Note      string `json:"note,omitempty"`
+	Attempts  int    `json:"attempts,omitempty"`
 }
 
 type Obs struct {
 	// release
-	Sig bool `json:"sig,omitempty"`
-	Nil bool `json:"nil,omitempty"`
+	Sig   bool `json:"sig,omitempty"`
+	Nil   bool `json:"nil,omitempty"`
+	Count int  `json:"count,omitempty"` // values the reader of the result channel received
 	// parties / sortp
 	Parties []PartyObs `json:"parties,omitempty"`
 	SPKind  int        `json:"sp_kind,omitempty"` // 0 list, 1 nil entries, 2 panic
@@ -124,12 +150,12 @@ func decodePeers(ss []string) []peer.ID {
 
 func runRelease(c Case) Obs {
 	sig := tsscommon.SignatureData{R: []byte{1, 2, 3}, S: []byte{4, 5}, M: []byte{6}, Signature: []byte{7}}
-	got, any := esigning.VerifProcessEnd(c.Coordinator, sig)
-	o := Obs{}
-	if any {
-		if p, ok := got.(*tsscommon.SignatureData); ok && p != nil {
-			o.Sig = string(p.R) == string(sig.R) && string(p.S) == string(sig.S) && string(p.M) == string(sig.M)
-		} else if got == nil {
+	got, _ := esigning.VerifProcessEndChan(c.Coordinator, sig, c.Cap, c.Late, 150*time.Millisecond)
+	o := Obs{Count: len(got)}
+	for _, v := range got {
+		if p, ok := v.(*tsscommon.SignatureData); ok && p != nil {
+			o.Sig = o.Sig || (string(p.R) == string(sig.R) && string(p.S) == string(sig.S) && string(p.M) == string(sig.M))
+		} else if v == nil {
 			o.Nil = true
 		}
 	}
@@ -320,17 +346,34 @@ func sharesStage(w *world, proto string, u []peer.ID, members []int, t int, oldP
 	return st, pub
 }
 
-func signStage(w *world, proto string, u []peer.ID, committee, subset []int, coord int, must bool, stage int, seed uint64, pub []byte) Stage {
+func digestInput(seed uint64, stage int, subset []int, input int) []byte {
+	if input == 0 {
+		return digestFor(seed, stage, subset)
+	}
+	h := sha256.Sum256(append(digestFor(seed, stage, subset), byte(input)))
+	return h[:]
+}
+
+// signStage: one signing session of `subset` (coordinator = subset[coord]) with the result channels,
+// readers and first-attempt failure that `o` asks for (session.go).  Released / Valid are reported for
+// the relayers selected in the LAST attempt (the holders that completed the session), in order;
+// Coord is the position of that attempt's coordinator among them.
+func signStage(w *world, proto string, u []peer.ID, committee, subset []int, coord int, must bool, stage int, seed uint64, pub []byte, o signOpts) Stage {
 	st := Stage{Must: must, Subset: subset, Coord: coord}
-	dg := digestFor(seed, stage, subset)
+	if proto == "ecdsa" && o.Chan == "btc" {
+		o.Chan, o.Inputs = "cap1", 1 // the BTC executor's pattern exists for FROST only
+	}
+	if o.Chan != "btc" {
+		o.Inputs = 1
+	}
+	digests := make([][]byte, o.inputs())
+	for k := range digests {
+		digests[k] = digestInput(seed, stage, subset, k)
+	}
 	sid := fmt.Sprintf("sign-%d-%s", stage, strings.Trim(strings.ReplaceAll(fmt.Sprint(subset), " ", "_"), "[]"))
-	holders, signers := pick(u, committee), pick(u, subset)
-	var rr runResult
-	var err error
 	var tweaked *btcec.PublicKey
-	if proto == "ecdsa" {
-		rr, err = w.ecdsaSign(sid, holders, signers, coord, new(big.Int).SetBytes(dg))
-	} else {
+	tweakHex := ""
+	if proto == "frost" {
 		p, perr := schnorr.ParsePubKey(pub)
 		if perr != nil {
 			st.Note = "stored taproot key does not parse: " + perr.Error()
@@ -338,35 +381,115 @@ func signStage(w *world, proto string, u []peer.ID, committee, subset []int, coo
 		}
 		tweak := chainhash.TaggedHash(chainhash.TagTapTweak, schnorr.SerializePubKey(p))
 		tweaked = txscript.ComputeTaprootKeyNoScript(p)
-		rr, err = w.frostSign(sid, holders, signers, coord, dg, hex.EncodeToString(tweak[:]))
+		tweakHex = hex.EncodeToString(tweak[:])
 	}
+	// the relayers: the signers and, for a retry with a changed subset, one more committee member
+	idx := append([]int(nil), subset...)
+	retry := o.Retry
+	if retry != "" && proto == "ecdsa" && len(subset) > 2 {
+		// threshlib's first round emits one message per other signer on an unbuffered channel: after a
+		// failed first send the remaining ones are never consumed and Party.Start() does not return
+		retry = ""
+		st.Note = "retry not exercised for more than two ECDSA signers; "
+	}
+	if retry == "subset" {
+		extra := -1
+		for _, m := range committee {
+			in := false
+			for _, s := range subset {
+				in = in || s == m
+			}
+			if !in {
+				extra = m
+				break
+			}
+		}
+		if extra < 0 {
+			retry = "commerr"
+		} else {
+			idx = append(idx, extra)
+		}
+	}
+	members, sids, err := w.signMembers(proto, sid, pick(u, committee), pick(u, idx), digests, tweakHex)
 	if err != nil {
-		st.Note = "could not create the signing processes: " + err.Error()
+		st.Note += "could not create the signing processes: " + err.Error()
 		return st
 	}
-	st.Completed = !rr.TimedOut && firstErr(rr.Errs) == ""
-	if !st.Completed {
-		st.Note = firstErr(rr.Errs)
-		if rr.TimedOut {
-			st.Note = "timed out; " + st.Note
-		}
+	n := len(subset)
+	all := make([]int, n)
+	for i := range all {
+		all[i] = i
 	}
-	for _, r := range rr.Results {
-		if proto == "ecdsa" {
-			sg := sigOf(r)
-			st.Released = append(st.Released, sg != nil)
-			if sg != nil {
-				st.Valid = append(st.Valid, ecdsaValid(sg, dg, pub))
-			}
-		} else {
-			sg := frostSigOf(r)
-			st.Released = append(st.Released, sg != nil)
-			if sg != nil {
-				ps, perr := schnorr.ParseSignature(sg)
-				st.Valid = append(st.Valid, perr == nil && ps.Verify(dg, tweaked))
+	plan := []attempt{{coord: coord, ready: all}}
+	switch retry {
+	case "commerr":
+		// Coordinator.retry: a new (bully) election, then the same processes run again
+		plan = []attempt{{coord: coord, ready: all, fault: true}, {coord: (coord + 1) % n, ready: all}}
+	case "subset":
+		// the left-out member coordinates the second attempt and replaces the last non-coordinator
+		drop := (coord + n - 1) % n
+		var ready []int
+		for i := 0; i < n; i++ {
+			if i != drop {
+				ready = append(ready, i)
 			}
 		}
+		ready = append(ready, n)
+		plan = []attempt{{coord: coord, ready: all, fault: true}, {coord: n, ready: ready}}
 	}
+	so := runSession(w.hub, members, sids, plan, o, 120*time.Second)
+	st.Completed, st.Coord = so.Completed, so.Coord
+	if st.Coord < 0 { // the coordinator did not select itself: no position among the signers is the coordinator's
+		st.Coord = len(so.Signers)
+		st.Note += "the coordinator is not among the selected signers; "
+	}
+	if so.Note != "" {
+		st.Note += so.Note
+	}
+	check := func(m *member) (released, valid bool) {
+		valid = true
+		seen := map[int]bool{}
+		for _, v := range m.got {
+			if v == nil {
+				continue
+			}
+			released = true
+			if proto == "ecdsa" {
+				sg, ok := v.(*tsscommon.SignatureData)
+				valid = valid && ok && sg != nil && ecdsaValid(sg, digests[0], pub)
+				continue
+			}
+			sg, ok := v.(fsigning.Signature)
+			if !ok || sg.Id < 0 || sg.Id >= len(digests) {
+				valid = false
+				continue
+			}
+			ps, perr := schnorr.ParseSignature([]byte(sg.Signature))
+			valid = valid && perr == nil && ps.Verify(digests[sg.Id], tweaked)
+			seen[sg.Id] = true
+		}
+		if proto == "frost" && released {
+			valid = valid && len(seen) == len(digests) // every input of the transaction got its signature
+		}
+		return
+	}
+	isSigner := map[int]bool{}
+	for _, i := range so.Signers {
+		isSigner[i] = true
+		rel, val := check(members[i])
+		st.Released = append(st.Released, rel)
+		if rel {
+			st.Valid = append(st.Valid, val)
+		}
+	}
+	for i, m := range members {
+		if rel, val := check(m); rel && !isSigner[i] { // a relayer outside the session released something
+			st.Released = append(st.Released, true)
+			st.Valid = append(st.Valid, val)
+			st.Note += fmt.Sprintf("; member %d is not a signer of the last attempt but released a signature", i)
+		}
+	}
+	st.Attempts = so.Attempts
 	return st
 }
 
@@ -446,6 +569,11 @@ func runScenario(c Case) Obs {
 		prevPts = st.Pts
 		if signAt[stage] {
 			subs := subsetsOf(committee, t+1)
+			if c.MaxSubsets > 0 && len(subs) > c.MaxSubsets {
+				off := int(c.Seed+uint64(stage)) % len(subs)
+				subs = append(append([][]int(nil), subs[off:]...), subs[:off]...)[:c.MaxSubsets]
+			}
+			opts := signOpts{Chan: c.Chan, Reader: c.Reader, Retry: c.Retry, Inputs: c.Inputs}
 			res := make([]Stage, len(subs))
 			var wg sync.WaitGroup
 			for k, sub := range subs {
@@ -453,7 +581,12 @@ func runScenario(c Case) Obs {
 				go func(k int, sub []int) {
 					defer wg.Done()
 					coord := int((c.Seed + uint64(k) + uint64(stage)) % uint64(len(sub)))
-					res[k] = signStage(w, c.Proto, u, committee, sub, coord, stage > 0, stage, c.Seed, pub)
+					o := opts
+					if len(c.Modes) > 0 {
+						m := c.Modes[k%len(c.Modes)]
+						o = signOpts{Chan: m.Chan, Reader: m.Reader, Retry: m.Retry, Inputs: m.Inputs}
+					}
+					res[k] = signStage(w, c.Proto, u, committee, sub, coord, stage > 0, stage, c.Seed, pub, o)
 				}(k, sub)
 			}
 			wg.Wait()
@@ -557,7 +690,13 @@ func strs(ps []peer.ID) []string {
 
 func gen(r *vgen.Rng, tier string) []Case {
 	var out []Case
-	out = append(out, Case{Kind: "release", Coordinator: true}, Case{Kind: "release", Coordinator: false})
+	// processEndMessage against result channels of every shape the executors use (unbuffered: EVM and
+	// Substrate; buffered: BTC and the repository's tests) with a parked and with a late reader
+	for _, cp := range []int{0, 1, 2, 8} {
+		for _, late := range []bool{false, true} {
+			out = append(out, Case{Kind: "release", Coordinator: true, Cap: cp, Late: late}, Case{Kind: "release", Coordinator: false, Cap: cp, Late: late})
+		}
+	}
 	nGlue := 50
 	if tier == "thorough" {
 		nGlue = 250
@@ -650,16 +789,53 @@ func gen(r *vgen.Rng, tier string) []Case {
 		{Kind: "scenario", Proto: "ecdsa", Start: "fixtures", SignAt: []int{0}, Seed: seed},
 		{Kind: "scenario", Proto: "frost", Start: "fixtures", SignAt: []int{0}, Seed: seed},
 		// refresh with a joining member, every pair of the new committee signs
-		{Kind: "scenario", Proto: "ecdsa", Start: "fixtures", Reshares: []Reshare{{Members: []int{0, 1, 2, 3}, T: 1}}, SignAt: []int{1}, Seed: seed},
+		// (ECDSA: the six pairs hand their signature over in six ways, two of them after a failed first attempt)
+		{Kind: "scenario", Proto: "ecdsa", Start: "fixtures", Reshares: []Reshare{{Members: []int{0, 1, 2, 3}, T: 1}}, SignAt: []int{1}, Seed: seed,
+			Modes: []Mode{{}, {Chan: "unbuf", Reader: "late"}, {Retry: "commerr"}, {Chan: "unbuf", Reader: "evm"}, {Retry: "subset", Chan: "unbuf"}, {Chan: "cap1"}}},
 		{Kind: "scenario", Proto: "frost", Start: "fixtures", Reshares: []Reshare{{Members: []int{0, 1, 2, 3}, T: 1}}, SignAt: []int{1}, Seed: seed},
+		// refresh of the unchanged committee; the three pairs: retried, late reader, retried with a changed subset
+		{Kind: "scenario", Proto: "frost", Start: "fixtures", Reshares: []Reshare{{Members: []int{0, 1, 2}, T: 1}}, SignAt: []int{1}, Seed: seed,
+			Modes: []Mode{{Retry: "commerr"}, {Chan: "unbuf", Reader: "late"}, {Retry: "subset", Chan: "btc", Inputs: 2}}},
 		// a member leaves
 		{Kind: "scenario", Proto: "ecdsa", Start: "fixtures", Reshares: []Reshare{{Members: []int{0, 2}, T: 1}}, SignAt: []int{1}, Seed: seed},
 		{Kind: "scenario", Proto: "frost", Start: "fixtures", Reshares: []Reshare{{Members: []int{0, 2}, T: 1}}, SignAt: []int{1}, Seed: seed},
 		// threshold raised (ECDSA: together with a join and a leave)
-		{Kind: "scenario", Proto: "ecdsa", Start: "fixtures", Reshares: []Reshare{{Members: []int{0, 1, 3, 4}, T: 2}}, SignAt: []int{1}, Seed: seed},
+		{Kind: "scenario", Proto: "ecdsa", Start: "fixtures", Reshares: []Reshare{{Members: []int{0, 1, 3, 4}, T: 2}}, SignAt: []int{1}, Seed: seed,
+			Modes: []Mode{{}, {Chan: "unbuf", Reader: "late"}, {}, {Chan: "unbuf", Reader: "evm"}}},
 		{Kind: "scenario", Proto: "frost", Start: "fixtures", Reshares: []Reshare{{Members: []int{0, 1, 2}, T: 2}}, SignAt: []int{1}, Seed: seed},
 	}
+	// how the signature is handed over (the executors' result channels and readers) and retried
+	// attempts on the same process objects (session.go); fixture shares, a rotating choice of subsets
+	scn = append(scn,
+		Case{Kind: "scenario", Proto: "ecdsa", Start: "fixtures", SignAt: []int{0}, Seed: seed, Chan: "unbuf", Reader: "late", MaxSubsets: 2},
+		Case{Kind: "scenario", Proto: "ecdsa", Start: "fixtures", SignAt: []int{0}, Seed: seed + 1, Chan: "unbuf", Reader: "evm", MaxSubsets: 1},
+		Case{Kind: "scenario", Proto: "ecdsa", Start: "fixtures", SignAt: []int{0}, Seed: seed + 2, Retry: "commerr", MaxSubsets: 1},
+		Case{Kind: "scenario", Proto: "ecdsa", Start: "fixtures", SignAt: []int{0}, Seed: seed + 3, Retry: "subset", Chan: "unbuf", MaxSubsets: 1},
+		Case{Kind: "scenario", Proto: "frost", Start: "fixtures", SignAt: []int{0}, Seed: seed, Chan: "unbuf", Reader: "late", MaxSubsets: 2},
+		Case{Kind: "scenario", Proto: "frost", Start: "fixtures", SignAt: []int{0}, Seed: seed + 1, Chan: "btc", Inputs: 2, MaxSubsets: 2},
+		Case{Kind: "scenario", Proto: "frost", Start: "fixtures", SignAt: []int{0}, Seed: seed + 2, Retry: "commerr", MaxSubsets: 2},
+		Case{Kind: "scenario", Proto: "frost", Start: "fixtures", SignAt: []int{0}, Seed: seed + 3, Retry: "subset", Chan: "btc", Inputs: 2, MaxSubsets: 1},
+	)
 	if tier == "thorough" {
+		for _, proto := range []string{"ecdsa", "frost"} {
+			scn = append(scn,
+				Case{Kind: "scenario", Proto: proto, Start: "fixtures", SignAt: []int{0}, Seed: seed + 5, Chan: "unbuf"},
+				Case{Kind: "scenario", Proto: proto, Start: "fixtures", SignAt: []int{0}, Seed: seed + 5, Chan: "cap1", Reader: "late"},
+				Case{Kind: "scenario", Proto: proto, Start: "fixtures", SignAt: []int{0}, Seed: seed + 6, Chan: "unbuf", Reader: "late", Retry: "commerr"},
+				Case{Kind: "scenario", Proto: proto, Start: "fixtures", SignAt: []int{0}, Seed: seed + 6, Chan: "unbuf", Reader: "evm", Retry: "subset"},
+				Case{Kind: "scenario", Proto: proto, Start: "fixtures", SignAt: []int{0}, Seed: seed + 7, Retry: "commerr"},
+				Case{Kind: "scenario", Proto: proto, Start: "fixtures", SignAt: []int{0}, Seed: seed + 7, Retry: "subset"},
+			)
+		}
+		scn = append(scn,
+			Case{Kind: "scenario", Proto: "frost", Start: "fixtures", SignAt: []int{0}, Seed: seed + 8, Chan: "btc", Inputs: 3, Reader: "late"},
+			Case{Kind: "scenario", Proto: "frost", Start: "fixtures", SignAt: []int{0}, Seed: seed + 8, Chan: "btc", Inputs: 3, Retry: "commerr"},
+			// after a refresh: the new committee signs with late readers / after a failed first attempt
+			Case{Kind: "scenario", Proto: "ecdsa", Start: "fixtures", Reshares: []Reshare{{Members: []int{0, 1, 2, 3}, T: 1}}, SignAt: []int{1}, Seed: seed + 9, Chan: "unbuf", Reader: "late", MaxSubsets: 3},
+			Case{Kind: "scenario", Proto: "ecdsa", Start: "fixtures", Reshares: []Reshare{{Members: []int{0, 1, 2, 3}, T: 1}}, SignAt: []int{1}, Seed: seed + 9, Retry: "subset", MaxSubsets: 3},
+			Case{Kind: "scenario", Proto: "frost", Start: "fixtures", Reshares: []Reshare{{Members: []int{0, 1, 2}, T: 1}}, SignAt: []int{1}, Seed: seed + 9, Chan: "unbuf", Reader: "late"},
+			Case{Kind: "scenario", Proto: "frost", Start: "fixtures", Reshares: []Reshare{{Members: []int{0, 1, 2}, T: 1}}, SignAt: []int{1}, Seed: seed + 9, Retry: "subset"},
+		)
 		scn = append(scn,
 			// real key generation, every subset signs, then two refreshes in a row
 			Case{Kind: "scenario", Proto: "ecdsa", Start: "keygen", N: 3, T: 1, SignAt: []int{0}, Seed: seed + 1},
@@ -757,7 +933,7 @@ func coqShares(ps []Share) string {
 func coq(c Case, o Obs) string {
 	switch c.Kind {
 	case "release":
-		return "Release " + vgen.Bool(c.Coordinator) + " " + vgen.Bool(o.Sig) + " " + vgen.Bool(o.Nil)
+		return "Release " + vgen.Bool(c.Coordinator) + " " + vgen.Nat(c.Cap) + " " + vgen.Bool(c.Late) + " " + vgen.Bool(o.Sig) + " " + vgen.Bool(o.Nil) + " " + vgen.Nat(o.Count)
 	case "parties":
 		return "Parties " + vgen.ListOf(c.Peers, vgen.Str) + " " +
 			vgen.ListOf(o.Parties, func(p PartyObs) string {
@@ -827,7 +1003,24 @@ func scenarioKind(c Case) string {
 			ops = []string{"plain"}
 		}
 	}
-	return "scn/" + c.Proto + "/" + strings.Join(ops, "+")
+	kind := "scn/" + c.Proto + "/" + strings.Join(ops, "+")
+	var mode []string
+	if c.Chan != "" {
+		mode = append(mode, c.Chan)
+	}
+	if c.Reader != "" {
+		mode = append(mode, c.Reader)
+	}
+	if c.Retry != "" {
+		mode = append(mode, "retry-"+c.Retry)
+	}
+	if len(c.Modes) > 0 {
+		mode = []string{"mixed"}
+	}
+	if len(mode) > 0 {
+		kind += "/" + strings.Join(mode, "-")
+	}
+	return kind
 }
 
 func main() {
@@ -857,6 +1050,6 @@ func main() {
 			}
 			return len(o.Stages) >= 2
 		},
-		Rule: "glue: both coordinator flags through the real processEndMessage; random committees of 1-9 well-formed peer ids (sha256- and identity-multihash) through PartiesFromPeers, sortParties (old subset, incl. non-subset and empty) and unmarshallStartParams/validateStartParams (holder / non-holder, perturbed subsets, thresholds -1..|sub|+1); scenarios: real in-process ECDSA and FROST runs from the fixture key shares (thorough: also from a real keygen) with join / leave / threshold change refreshes and every threshold+1 subset signing; distinct = distinct input JSON; non-trivial = at least 2 peers (parties), a proper non-empty old subset (sortp), a non-empty subset (validate), a scenario with at least two observed stages",
+		Rule: "glue: both coordinator flags through the real processEndMessage; random committees of 1-9 well-formed peer ids (sha256- and identity-multihash) through PartiesFromPeers, sortParties (old subset, incl. non-subset and empty) and unmarshallStartParams/validateStartParams (holder / non-holder, perturbed subsets, thresholds -1..|sub|+1); scenarios: real in-process ECDSA and FROST runs from the fixture key shares (thorough: also from a real keygen) with join / leave / threshold change refreshes and every threshold+1 subset signing; signing sessions with the executors' result channels (unbuffered / capacity 1 / one FROST process per input sharing a channel of capacity = inputs) read by a parked, a late or an EVM-watchExecution-style reader, and sessions whose first attempt fails (CommunicationError on every signer's first key-sign broadcast, optionally a left-out member joining) and whose SAME process objects run again; processEndMessage with channel capacities 0/1/2/8 x parked/late reader; distinct = distinct input JSON; non-trivial = at least 2 peers (parties), a proper non-empty old subset (sortp), a non-empty subset (validate), a scenario with at least two observed stages",
 	})
 }
